@@ -31,6 +31,8 @@ Definition chk_prog {A} (eqb : A -> A -> bool) (p : prog A) (ex : list (request 
 
 Definition chk_read (rng : option (N * N)) (id : N) ex (exp : res (list N)) : bool :=
   chk_prog bytes_eqb (read_fru_data rng id) ex exp.
+Definition chk_info (id : N) ex (exp : res N) : bool :=
+  chk_prog N.eqb (get_fru_inventory_area_info id) ex exp.
 Definition chk_area (off : option N) (id : N) ex (exp : res (list N)) : bool :=
   chk_prog bytes_eqb (read_fru_area off id) ex exp.
 Definition chk_write (wl : N) (data : list N) (off id : N) ex (exp : res unit) : bool :=
